@@ -14,9 +14,11 @@ TECHNIQUE = ("Coq theorems (induction over trees with a nested induction over th
 LEVEL_TEXT = ("Partial. Unbounded proof: for every element tree (any depth and width, any texts before, between and after "
               "children) the events of the tree in document order rebuild exactly that tree - element nesting, and every "
               "text in its place; printed attribute values contain only XML characters and clean values are unchanged; "
-              "printed names contain only name characters. Not proved: that the byte layers (chunk headers, string pool "
-              "decoding, the chunk loop) deliver the events of the encoded document - they are modelled and compared with "
-              "the code, and with the document description, on every run.")
+              "printed names contain only name characters; for every string pool chunk without styles - UTF-16 or UTF-8, any "
+              "number of strings of valid code points, supplementary characters, one- and two-unit length prefixes, any "
+              "padding - parsing the chunk and asking for string i returns exactly the i-th string. Not proved: that the "
+              "other byte layers (chunk headers, resource map, the chunk loop, attribute records) deliver the events of the "
+              "encoded document - they are modelled and compared with the code, and with the document description, on every run.")
 LEVEL_NOTE = ("Trusted: Coq kernel; coq/Axml/PoolModel.v (StringBlock; malformed UTF-8 outside the model), "
               "coq/Axml/AxmlModel.v (AXMLParser/AXMLPrinter; names restricted to ASCII because of str.isalpha, comments and a "
               "second root outside the model, the namespace map as 'last declaration of a prefix wins', lxml's Element as a "
